@@ -139,6 +139,23 @@ Theorem C18_half_mm_outside_known_partial : forall m i j sd a b z t1 t2 r1 c1 r2
 Proof. exact half_mm_outside_known_lemma. Qed.
 Print Assumptions C18_half_mm_outside_known_partial.
 
+(* the computed bound that replaces 0.5 mm: every tabulated step of the current tables is < 0.66 mm, hence so is the
+   change between any two lookups inside one tabulated segment (any segment, known class included) *)
+Theorem C18_max_knot_step_current : forall i j sd a b,
+  nth_error d_tables i = Some sd -> nth_error (fst sd) j = Some a -> nth_error (fst sd) (S j) = Some b ->
+  dyR (dk_radius a) - dyR (dk_radius b) < 66 / 100000.
+Proof. exact max_knot_step_current_lemma. Qed.
+Print Assumptions C18_max_knot_step_current.
+
+Theorem C18_step_lt_066_mm_partial : forall m i j sd a b z t1 t2 r1 c1 r2 c2,
+  nth_error d_tables i = Some sd -> nth_error (fst sd) j = Some a -> nth_error (fst sd) (S j) = Some b ->
+  is_slice r_tables z (map dknotR (fst sd), dyR (snd sd)) ->
+  dyR (dk_time a) <= t1 -> t1 <= t2 -> t2 <= dyR (dk_time b) ->
+  lookupR m r_tables z t1 = Ok (r1, c1) -> lookupR m r_tables z t2 = Ok (r2, c2) ->
+  0 <= r1 - r2 < 66 / 100000.
+Proof. exact step_lt_066_mm_lemma. Qed.
+Print Assumptions C18_step_lt_066_mm_partial.
+
 (* known finding F8 (`drift_step_ge_half_mm`): "changes by less than 0.5 mm between lookups 8 ns apart" is FALSE
    of the shipped tables: z = 0, t = knots 17 and 18 of table 0 (136 ns / 144 ns) are 8 ns apart (to 1e-20 s)
    and the radii differ by >= 0.5 mm (0.571 mm) *)
